@@ -1096,6 +1096,11 @@ class Executor:
                 return self.apply_contract(c, [v], {}, st)
             if c is not None:
                 return [(st, ('bound', v, attr))]
+            # a helper method of the same class without a contract of its own is part of the
+            # implementation of the function under verification: its body is executed
+            fd = self._find_method_def(v.cls, attr)
+            if fd is not None:
+                return [(st, ('inline_method', v, fd))]
             raise Unsupported(f'unknown attribute {v.cls}.{attr}')
         if isinstance(v, tuple) and len(v) == 2 and v[0] == 'global':
             if f'{v[1]}.{attr}' in ('np.pi', 'math.pi', 'numpy.pi'):
@@ -1577,6 +1582,8 @@ class Executor:
             return self.apply_contract(c, [obj] + list(args), kwargs, st)
         if isinstance(fv, tuple) and fv and fv[0] == 'localdef':
             return self.call_local(fv[1], args, kwargs, st)
+        if isinstance(fv, tuple) and fv and fv[0] == 'inline_method':
+            return self.call_method_inline(fv[2], fv[1], args, kwargs, st)
         name = fv[1] if isinstance(fv, tuple) and fv and fv[0] == 'global' else fname
         if isinstance(fv, tuple) and fv and fv[0] == 'class':
             name = fv[1]
@@ -1593,6 +1600,72 @@ class Executor:
         if c is not None:
             return self.apply_contract(c, args, kwargs, st)
         raise Unsupported(f'call to {name!r} (no primitive and no contract)')
+
+    def _find_method_def(self, cls, name):
+        tree = getattr(self.registry, 'current_tree', None)
+        if tree is None:
+            return None
+        for n in ast.walk(tree):
+            if isinstance(n, ast.ClassDef) and n.name in (cls, self.cur_class):
+                for m in n.body:
+                    if isinstance(m, ast.FunctionDef) and m.name == name:
+                        decs = {_dotted(d) if not isinstance(d, ast.Call) else _dotted(d.func)
+                                for d in m.decorator_list}
+                        if decs & {'property', 'lazyproperty', 'classmethod'}:
+                            return None
+                        return m
+        return None
+
+    def call_method_inline(self, fnode, selfobj, args, kwargs, st):
+        """Execute the body of an uncontracted helper method of the class under verification
+        (depth-limited); the helper sees only its own parameters."""
+        depth = getattr(self, '_inline_depth', 0)
+        if depth >= 2:
+            raise Unsupported('nested helper inlining too deep')
+        decs = {_dotted(d) if not isinstance(d, ast.Call) else _dotted(d.func)
+                for d in fnode.decorator_list}
+        names = [a.arg for a in fnode.args.args]
+        if 'staticmethod' not in decs:
+            args = [selfobj] + list(args)
+        if len(args) > len(names) or fnode.args.vararg or fnode.args.kwarg:
+            raise Unsupported('helper call signature')
+        saved = st.env
+        env = {}
+        defaults = fnode.args.defaults
+        for p, d in zip(names[len(names) - len(defaults):], defaults):
+            try:
+                env[p] = ast.literal_eval(d)
+            except Exception:  # noqa: BLE001
+                pass
+        for n, a in zip(names, args):
+            env[n] = a
+        for k, v in kwargs.items():
+            if k not in names:
+                raise Unsupported('helper keyword')
+            env[k] = v
+        if any(n not in env for n in names):
+            raise Unsupported('helper argument missing')
+        st.env = env
+        self._inline_depth = depth + 1
+        try:
+            results = self.exec_block(fnode.body, st)
+        finally:
+            self._inline_depth = depth
+        outs = []
+        for s2, oc in results:
+            # the caller's locals are restored (arrays are shared objects, so in-place effects
+            # of the helper on its arguments are kept)
+            memo_env = saved if s2 is st else None
+            if memo_env is None:
+                raise Unsupported('helper body forks')
+            s2.env = saved
+            if oc[0] == 'raise':
+                outs.append(((s2, oc), None))
+            elif oc[0] == 'return':
+                outs.append((s2, oc[1]))
+            else:
+                outs.append((s2, None))
+        return outs
 
     def call_local(self, fnode, args, kwargs, st):
         """Call of a function defined inside the function under verification: its body is part
